@@ -345,6 +345,104 @@ def _reads_coefficient(stmts: List[ast.stmt], operand: str) -> bool:
     return False
 
 
+def _is_param_read(n: ast.AST, operand: str, key: str) -> bool:
+    return (isinstance(n, ast.Subscript) and const_str(n.slice) == key and isinstance(n.value, ast.Attribute)
+            and n.value.attr in ("params", "_params") and isinstance(n.value.value, ast.Name) and n.value.value.id == operand)
+
+
+def _weighted_by(n: ast.AST, parents: Dict[int, ast.AST], operand: str) -> bool:
+    """n is a direct factor of a product whose other factors include operand.params['coefficient']."""
+    cur = n
+    while True:
+        p = parents.get(id(cur))
+        if isinstance(p, ast.BinOp) and isinstance(p.op, ast.Mult):
+            other = p.right if p.left is cur else p.left
+            if any(_is_param_read(x, operand, "coefficient") for x in ast.walk(other)):
+                return True
+            cur = p
+            continue
+        return False
+
+
+def _raw_amplitude_uses(stmts: List[ast.stmt], operand: str) -> List[Tuple[ast.AST, str]]:
+    """Uses of operand.params['fock_amplitude_map'] through which an amplitude reaches the result without the factor
+    operand.params['coefficient'].  Accepted idioms (enumerated from the four arms of the repository):
+      for k, v in MAP.items(): v *= coef ...        {k: v * coef for k, v in MAP.items()}        MAP[k] * coef
+      k in MAP, len(MAP), MAP.keys()                 name = MAP (alias, followed)"""
+    parents: Dict[int, ast.AST] = {}
+    for s in stmts:
+        for n in ast.walk(s):
+            for c in ast.iter_child_nodes(n):
+                parents[id(c)] = n
+    bad: List[Tuple[ast.AST, str]] = []
+    aliases: Set[str] = set()
+
+    def is_map(n: ast.AST) -> bool:
+        return _is_param_read(n, operand, "fock_amplitude_map") or (isinstance(n, ast.Name) and n.id in aliases and isinstance(n.ctx, ast.Load))
+
+    def value_var_weighted(var: str, scope: List[ast.AST], loop_body: Optional[List[ast.stmt]]) -> bool:
+        if loop_body:
+            f = loop_body[0]
+            if isinstance(f, ast.AugAssign) and isinstance(f.op, ast.Mult) and isinstance(f.target, ast.Name) and f.target.id == var \
+                    and any(_is_param_read(x, operand, "coefficient") for x in ast.walk(f.value)):
+                return True
+        loads = [n for sc in scope for n in ast.walk(sc) if isinstance(n, ast.Name) and n.id == var and isinstance(n.ctx, ast.Load)]
+        return all(_weighted_by(n, parents, operand) for n in loads)
+
+    changed = True
+    while changed:
+        changed = False
+        for s in stmts:
+            for n in ast.walk(s):
+                if isinstance(n, ast.Assign) and len(n.targets) == 1 and isinstance(n.targets[0], ast.Name) and is_map(n.value) \
+                        and n.targets[0].id not in aliases:
+                    aliases.add(n.targets[0].id)
+                    changed = True
+    for s in stmts:
+        for n in ast.walk(s):
+            if not is_map(n):
+                continue
+            p = parents.get(id(n))
+            if isinstance(p, ast.Assign) and n is p.value and isinstance(p.targets[0], ast.Name):
+                continue  # alias binding
+            if isinstance(p, ast.Compare) and n in p.comparators and all(isinstance(o, (ast.In, ast.NotIn)) for o in p.ops):
+                continue
+            if isinstance(p, ast.Call) and isinstance(p.func, ast.Name) and p.func.id == "len":
+                continue
+            if isinstance(p, ast.Attribute) and p.value is n:
+                call = parents.get(id(p))
+                if p.attr == "keys":
+                    continue
+                if p.attr in ("items", "values") and isinstance(call, ast.Call):
+                    holder = parents.get(id(call))
+                    tgt = None
+                    scope: List[ast.AST] = []
+                    body = None
+                    if isinstance(holder, ast.For) and holder.iter is call:
+                        tgt, scope, body = holder.target, list(holder.body), list(holder.body)
+                    elif isinstance(holder, ast.comprehension) and holder.iter is call:
+                        comp = parents.get(id(holder))
+                        tgt = holder.target
+                        scope = [x for x in ast.iter_child_nodes(comp) if not isinstance(x, ast.comprehension)] + list(holder.ifs)
+                    var = None
+                    if tgt is not None:
+                        if p.attr == "items" and isinstance(tgt, ast.Tuple) and len(tgt.elts) == 2 and isinstance(tgt.elts[1], ast.Name):
+                            var = tgt.elts[1].id
+                        elif p.attr == "values" and isinstance(tgt, ast.Name):
+                            var = tgt.id
+                    if var is not None and value_var_weighted(var, scope, body):
+                        continue
+                    bad.append((n, f"the amplitudes iterated from `{norm(n)}` are used without the factor {operand}.params['coefficient']"))
+                    continue
+            if isinstance(p, ast.Subscript) and p.value is n and isinstance(p.ctx, ast.Load):
+                if _weighted_by(p, parents, operand):
+                    continue
+                bad.append((p, f"`{norm(p)}` reads a raw amplitude of `{operand}` that is not multiplied by {operand}.params['coefficient']"))
+                continue
+            bad.append((n, f"`{norm(p)[:70]}` uses the raw amplitude map of `{operand}` (not weighted by {operand}.params['coefficient'])"))
+    return bad
+
+
 def clause_f(ctx: Context, idx, reg) -> None:
     prep = "piquasso.instructions.preparations"
     n_arms = 0
@@ -367,6 +465,17 @@ def clause_f(ctx: Context, idx, reg) -> None:
                         operands.append(("self", cls))
                     if tcls.qualname in reg.instructions and "coefficient" in reg.instruction(tcls).all_param_keys():
                         operands.append((other, tcls))
+                    for opname, ocls in operands:
+                        if "fock_amplitude_map" not in reg.instruction(ocls).all_param_keys():
+                            continue
+                        raw = _raw_amplitude_uses(list(cur.body), opname)
+                        key = f"{cls.qualname}.__add__|{tcls.name}-arm|{opname}.amplitudes-weighted"
+                        ctx.obligation("C18f", key, not raw, f"{ctx.relpath(cls.file)}:{cur.lineno}")
+                        for node, why in raw:
+                            ctx.violation("C18f", key, cls.file, node.lineno,
+                                          f"{cname} + {tcls.name}: {why}; the amplitudes a FockStateVector denotes are "
+                                          f"coefficient * fock_amplitude_map[k], so `a + s*(a + b)` and `s*(a + b) + a` denote different superpositions",
+                                          norm(node)[:80])
                     for ret, path in _paths_to_returns(cur.body, []):
                         if isinstance(ret.value, ast.Name) and ret.value.id == "NotImplemented":
                             continue
